@@ -100,16 +100,16 @@ func parseValue(dec *json.Decoder) (*node, error) {
 // members are joined with '.', array elements are "[i]" (e.g. "signatures[0].Signer.data").
 type emitOpts struct {
 	Lead, Trail string
-	Interior    string              // inserted after every ':' and ','
-	KeyName     map[string]string   // member path -> key text to emit instead (case variants)
-	EscapeKey   map[string]bool     // member path -> emit the key with \u escapes
-	EscapeStr   map[string]bool     // string value path -> emit every character as \uXXXX
-	Order       map[string]int      // object path -> rotate members by k
-	Extra       map[string]string   // object path -> raw member text appended (`"k":v`)
-	ExtraFirst  map[string]string   // object path -> raw member text prepended
-	DupBefore   map[string]string   // member path -> raw junk value emitted (same key) before the real member
-	DupSame     map[string]bool     // member path -> member emitted twice
-	Replace     map[string]string   // value path -> raw JSON text emitted instead of the value
+	Interior    string            // inserted after every ':' and ','
+	KeyName     map[string]string // member path -> key text to emit instead (case variants)
+	EscapeKey   map[string]bool   // member path -> emit the key with \u escapes
+	EscapeStr   map[string]bool   // string value path -> emit every character as \uXXXX
+	Order       map[string]int    // object path -> rotate members by k
+	Extra       map[string]string // object path -> raw member text appended (`"k":v`)
+	ExtraFirst  map[string]string // object path -> raw member text prepended
+	DupBefore   map[string]string // member path -> raw junk value emitted (same key) before the real member
+	DupSame     map[string]bool   // member path -> member emitted twice
+	Replace     map[string]string // value path -> raw JSON text emitted instead of the value
 }
 
 func quoteEscaped(s string) string {
